@@ -16,7 +16,8 @@ gen.NAME_CLASSES["exp_names"] = ["A", "B", "Car", "x1", "_u", "9lives", "ñandú
 SPLOT_NAMES = ("plain", "space", "punct", "keyword", "lead", "nonascii", "long")
 KINDS = ("mandatory", "optional", "alternative", "or", "mutex", "card", "nn", "zero", "star")
 CLAFER_KEYWORDS = {"xor", "or", "mux", "not", "abstract"}
-gen.NAME_CLASSES["clafer_kw"] = ["xor", "or", "mux", "not", "abstract", "Xor", "NOT"]
+gen.NAME_CLASSES["clafer_kw"] = ["xor", "or", "mux", "not", "abstract", "Xor", "NOT", "true", "false", "integer", "double", "string",
+                                 "boolean"]
 
 
 # ------------------------------------------------------------------------------ SXFM interpreter
@@ -318,6 +319,8 @@ def clafer_expr(s):
         pos[0] += 1
         if t == "not":
             return ("not", unary())
+        if t in ("true", "false"):          # bare: the Boolean literals, never a clafer
+            return ("const", t == "true")
         if t == "(":
             e = expr()
             assert toks[pos[0]] == ")"
@@ -338,6 +341,8 @@ def clafer_expr(s):
 
 
 def clafer_ev(e, sel):
+    if e[0] == "const":
+        return e[1]
     if e[0] == "var":
         return e[1] in sel
     if e[0] == "not":
